@@ -2,6 +2,8 @@
 C14 — LDM subscriptions notify exactly the matching data, at the requested cadence.
 Property theorems only.  Model: FlexModel/Ldm/Subs.lean (repaired code; variant `uniqueIds` for known finding
 C14-KF1); lemmas: FlexModel/Ldm/SubsLemmas.lean; the query of a subscription is C13's (`Props.C13.query_exact`).
+Every theorem is for ALL callback behaviours `β` (a callback may only record, raise, or re-enter IF.LDM.4 with an
+unsubscribe / a deregistration) unless it says `passive`.
 -/
 import FlexModel.Ldm.SubsLemmas
 import FlexModel.Ldm.QueryLemmas
@@ -13,13 +15,13 @@ open FlexModel.Ldm FlexModel.Ldm.Spec Generated.Ldm
 
 /-- **notify_exact** (all histories, every step): every callback invocation made by any operation — explicit
 attendance or the reactive one inside `add` — belongs to a subscription stored before the operation, whose consumer
-is registered, and carries exactly the result of that subscription's query on the store as it is after the
+was registered, and carries exactly the result of that subscription's query on the store as it is after the
 operation, in the query's order. -/
-theorem notify_exact (cfg : Cfg) (u : Bool) (s : SSt) (op : SOp) (c : Call) (hc : c ∈ (sstep cfg u s op).2.calls) :
-    ∃ x ∈ s.subs, c.cb = x.cb ∧ c.app = x.req.app ∧
-      (sstep cfg u s op).1.core.consumers.contains x.req.app = true ∧
-      subMatches ((sstep cfg u s op).1.core.db.rows.map (·.2)) x.req = .ok (some c.objs) :=
-  sstep_calls cfg u s op c hc
+theorem notify_exact (cfg : Cfg) (u : Bool) (β : Nat → CbAct) (s : SSt) (op : SOp) (c : Call)
+    (hc : c ∈ (sstep cfg u β s op).2.calls) :
+    ∃ x ∈ s.subs, c.cb = x.cb ∧ c.app = x.req.app ∧ s.core.consumers.contains x.req.app = true ∧
+      subMatches ((sstep cfg u β s op).1.core.db.rows.map (·.2)) x.req = .ok (some c.objs) :=
+  sstep_calls cfg u β s op c hc
 
 theorem stableSort_lex_perm (κ : OrderKey → Record → Int) (ks : List OrderKey) (l : List Record) :
     (stableSort (lexLe (ks.map (effKey κ))) l).Perm l := by
@@ -27,10 +29,11 @@ theorem stableSort_lex_perm (κ : OrderKey → Record → Int) (ks : List OrderK
   exact List.mergeSort_perm l _
 
 /-- what `subMatches` yields is the specification's query (C13) whenever at least `max 1 multiplicity` objects are
-selected: the selected objects of the subscribed types that satisfy the filter, stably sorted by the order keys -/
+selected: the selected objects of the subscribed types that satisfy the filter, stably sorted by the order keys
+(keys of one comparable class with an integer scale `κ`, as in `Props.C13.query_exact`: integer- or text-valued) -/
 theorem notified_objects_are_the_query (κ : OrderKey → Record → Int) (rows : List Record) (r : SubReq)
     (hwf : ∀ g, r.filter = some g → WFFilter g)
-    (hk : ∀ ks, r.order = some ks → ∀ x ∈ select rows r.types r.filter, ∀ k ∈ ks, orderKeyOf x k = .ok (.int (κ k x)))
+    (hk : ∀ ks, r.order = some ks → Scaled κ ks (select rows r.types r.filter))
     (objs : List Record) (h : subMatches rows r = .ok (some objs)) :
     objs = query κ rows r.types r.filter r.order ∧ objs.length ≥ 1 ∧
       (∀ m, r.mult = some m → (objs.length : Int) ≥ m) := by
@@ -66,52 +69,74 @@ theorem notified_objects_are_the_query (κ : OrderKey → Record → Int) (rows 
       injection hrest with hrest; injection hrest with hrest; subst hrest
       exact ⟨by simp [query], hlen, fun m hmm => hmult m hmm⟩
     | some ks =>
-      simp only [ho, orderResults_eq κ ks _ (hk ks ho), bind, Except.bind, pure, Except.pure] at hrest
+      simp only [ho, orderResults_scale κ ks _ (hk ks ho), bind, Except.bind, pure, Except.pure] at hrest
       injection hrest with hrest; injection hrest with hrest; subst hrest
       have hp := (stableSort_lex_perm κ ks (select rows r.types r.filter)).length_eq
       exact ⟨by simp [query], by rw [hp]; exact hlen, fun m hmm => by rw [hp]; exact hmult m hmm⟩
 
-/-- **notify_iff**: at an attendance a registered consumer's subscription is notified if and only if its query
-yields something to notify (at least `max 1 multiplicity` matching objects) and the notification interval has
-passed since its previous notification (or since the subscription), at the LDM's one-second clock — so matching
-data is notified by the first attendance after the interval. -/
+/-- **notify_iff**: when the attendance reaches a registered consumer's subscription, it is notified if and only if
+it is still stored, its query yields something to notify (at least `max 1 multiplicity` matching objects) and the
+notification interval has passed since its previous notification (or since the subscription), at the LDM's one-second
+clock — so matching data is notified by the first attendance after the interval. -/
 theorem notify_iff (s : SSt) (x : Sub) (s1 : SSt) (cs : List Call) (d : Bool) (h : attendOne s x = .ok (s1, cs, d))
     (hreg : s.core.consumers.contains x.req.app = true) :
-    (cs ≠ [] ↔ (∃ objs, subMatches (s.core.db.rows.map (·.2)) x.req = .ok (some objs)) ∧ intervalElapsed s x = true) := by
+    (cs ≠ [] ↔ (∃ objs, subMatches (s.core.db.rows.map (·.2)) x.req = .ok (some objs)) ∧ intervalElapsed s x = true ∧
+      x ∈ s.subs) := by
   obtain ⟨_, _, _, h4, h5⟩ := attendOne_spec s x s1 cs d h
   constructor
   · intro hne
     cases cs with
     | nil => exact absurd rfl hne
     | cons c t =>
-      obtain ⟨_, _, _, _, a5, a6⟩ := h4 c (by simp)
-      exact ⟨⟨c.objs, a5⟩, a6⟩
-  · rintro ⟨⟨objs, ho⟩, hi⟩ hnil
-    rcases h5 hnil hreg with h | h
+      obtain ⟨_, _, _, _, a5, a6, a7⟩ := h4 c (by simp)
+      exact ⟨⟨c.objs, a5⟩, a6, a7⟩
+  · rintro ⟨⟨objs, ho⟩, hi, hm⟩ hnil
+    rcases h5 hnil hreg with h | h | h
     · rw [ho] at h; cases h
     · rw [hi] at h; cases h
+    · exact h hm
 
-/-- the interval test at one-second resolution: `last + interval ≤ now`, both whole seconds in ITS milliseconds -/
-theorem interval_rule (s : SSt) (x : Sub) (last n : Int) (hl : lcGet s.lastChecked x = some last)
-    (hn : x.req.notify = some n) : intervalElapsed s x = true ↔ last + n ≤ nowIts s.core.utcMs := by
-  simp only [intervalElapsed, hl, hn, Option.getD_some, Bool.not_eq_true', decide_eq_false_iff_not, Int.not_lt]
+/-- **attend_complete** — an attendance notifies EVERY due subscription: each stored subscription of a registered
+consumer whose query yields something to notify and whose interval has elapsed receives a callback carrying exactly
+that result, whatever happens to the OTHER subscriptions of the same attendance (ordering TypeError — C13-KF2 —,
+raising callbacks), provided the callbacks do not re-enter the LDM (a callback that unsubscribes / deregisters
+legitimately silences later subscriptions, see `reentrant_removal_effective`).
+This is the repaired code (fixes/C14-attendance-isolation); for the code before the fix see `attend_abort_witness`. -/
+theorem attend_complete (cfg : Cfg) (u : Bool) (β : Nat → CbAct) (s : SSt) (hβ : ∀ y ∈ s.subs, passive β y.cb)
+    (x : Sub) (hx : x ∈ s.subs) (hreg : s.core.consumers.contains x.req.app = true) (objs : List Record)
+    (hm : subMatches (s.core.db.rows.map (·.2)) x.req = .ok (some objs)) (hi : intervalElapsed s x = true) :
+    ∃ c ∈ (sstep cfg u β s .attend).2.calls, c.cb = x.cb ∧ c.app = x.req.app ∧ c.objs = objs := by
+  simp only [sstep, attend]
+  exact attendLoop_complete cfg u β x objs s.subs s [] [] hβ hx hx hreg hm hi
+
+/-- … and it removes the subscriptions of deregistered consumers, all of them, also when some other subscription's
+ordering raises (the code before the fix skipped the removals in that case) -/
+theorem attend_drops_deregistered (cfg : Cfg) (u : Bool) (β : Nat → CbAct) (s : SSt) (hβ : ∀ y ∈ s.subs, passive β y.cb) :
+    (sstep cfg u β s .attend).1.subs = s.subs.filter (fun y => s.core.consumers.contains y.req.app) := by
+  simp only [sstep, attend]
+  obtain ⟨s', a1, _, a3⟩ := attendLoop_passive_state cfg u β s.subs s [] [] hβ
+  rw [a3, List.nil_append]
+  have := remove_all (fun y => !s.core.consumers.contains y.req.app) s'
+  rw [a1] at this
+  rw [this]
+  simp
 
 /-! ## after unsubscription / deregistration -/
 
 /-- **no callback without a subscription** (all histories): once no stored subscription carries the callback, it is
 never invoked again, whatever operations follow (as long as nobody subscribes with that same callback again). -/
-theorem no_callback_without_subscription (cfg : Cfg) (u : Bool) (cb : Nat) (ops : List SOp) (s : SSt)
-    (h : cb ∉ cbsOf s) (hr : noResubscribe cb ops) : ∀ o ∈ (srun cfg u s ops).2, ∀ c ∈ o.calls, c.cb ≠ cb :=
-  no_call_without_subscription cfg u cb ops s h hr
+theorem no_callback_without_subscription (cfg : Cfg) (u : Bool) (β : Nat → CbAct) (cb : Nat) (ops : List SOp) (s : SSt)
+    (h : cb ∉ cbsOf s) (hr : noResubscribe cb ops) : ∀ o ∈ (srun cfg u β s ops).2, ∀ c ∈ o.calls, c.cb ≠ cb :=
+  no_call_without_subscription cfg u β cb ops s h hr
 
-/-- an accepted unsubscribe removes the subscription (and, id = hash(request), every equal request — C14-KF1) … -/
-theorem unsubscribe_removes (cfg : Cfg) (u : Bool) (s : SSt) (app : Nat) (r : SubReq) (cb : Nat)
+/-- what `unsubscribe_data_consumer` leaves: an accepted unsubscribe removes the subscription (and, id =
+hash(request), every equal request — C14-KF1); the same function serves a callback that re-enters -/
+theorem doUnsub_removes (u : Bool) (s : SSt) (app : Nat) (r : SubReq) (cb : Nat)
     (hreg : s.core.consumers.contains app = true) :
-    (sstep cfg u s (.unsubscribe app (some (r, cb)))).1.subs
+    (doUnsub u s app (some (r, cb))).1.subs
       = s.subs.filter (fun x => !(if u then x.cb == cb && x.req == r else x.req == r)) := by
   have key : ∀ p : Sub → Bool,
-      (if (s.subs.filter p).isEmpty then (s, ({ out := .code 1, calls := [] } : SOut))
-       else ((s.subs.filter p).foldl removeSub s, { out := .code 0, calls := [] })).1.subs
+      (if (s.subs.filter p).isEmpty then (s, (1 : Nat)) else ((s.subs.filter p).foldl removeSub s, 0)).1.subs
         = s.subs.filter (fun x => !p x) := by
     intro p
     split
@@ -125,43 +150,90 @@ theorem unsubscribe_removes (cfg : Cfg) (u : Bool) (s : SSt) (app : Nat) (r : Su
     · exact remove_all p s
   cases u with
   | true =>
-    simp only [sstep, hreg, Bool.not_true, Bool.false_eq_true, if_false, if_true]
+    simp only [doUnsub, hreg, Bool.not_true, Bool.false_eq_true, if_false, if_true]
     exact key (fun x => x.cb == cb && x.req == r)
   | false =>
-    simp only [sstep, hreg, Bool.not_true, Bool.false_eq_true, if_false]
+    simp only [doUnsub, hreg, Bool.not_true, Bool.false_eq_true, if_false]
     exact key (fun x => x.req == r)
 
-/-- **no callback after unsubscribe** (all histories): if the callback identifies the subscription, after an accepted
-unsubscribe with its id the callback is never invoked again. -/
-theorem no_callback_after_unsubscribe (cfg : Cfg) (u : Bool) (s : SSt) (app : Nat) (r : SubReq) (cb : Nat)
-    (hreg : s.core.consumers.contains app = true) (huniq : ∀ y ∈ s.subs, y.cb = cb → y.req = r)
-    (ops : List SOp) (hr : noResubscribe cb ops) :
-    ∀ o ∈ (srun cfg u (sstep cfg u s (.unsubscribe app (some (r, cb)))).1 ops).2, ∀ c ∈ o.calls, c.cb ≠ cb := by
-  apply no_call_without_subscription cfg u cb ops _ _ hr
-  simp only [cbsOf, unsubscribe_removes cfg u s app r cb hreg, List.mem_map, List.mem_filter, not_exists, not_and]
+theorem unsubscribe_removes (cfg : Cfg) (u : Bool) (β : Nat → CbAct) (s : SSt) (app : Nat) (r : SubReq) (cb : Nat)
+    (hreg : s.core.consumers.contains app = true) :
+    (sstep cfg u β s (.unsubscribe app (some (r, cb)))).1.subs
+      = s.subs.filter (fun x => !(if u then x.cb == cb && x.req == r else x.req == r)) := by
+  simp only [sstep]
+  exact doUnsub_removes u s app r cb hreg
+
+/-- after an accepted unsubscribe no stored subscription carries the callback (if the callback identifies it) -/
+theorem doUnsub_cb_gone (u : Bool) (s : SSt) (app : Nat) (r : SubReq) (cb : Nat)
+    (hreg : s.core.consumers.contains app = true) (huniq : ∀ y ∈ s.subs, y.cb = cb → y.req = r) :
+    cb ∉ cbsOf (doUnsub u s app (some (r, cb))).1 := by
+  simp only [cbsOf, doUnsub_removes u s app r cb hreg, List.mem_map, List.mem_filter, not_exists, not_and]
   intro y hy hcb
   have hreq := huniq y hy.1 hcb
   have := hy.2
   cases u <;> simp_all
 
+/-- **no callback after unsubscribe** (all histories): if the callback identifies the subscription, after an accepted
+unsubscribe with its id the callback is never invoked again. -/
+theorem no_callback_after_unsubscribe (cfg : Cfg) (u : Bool) (β : Nat → CbAct) (s : SSt) (app : Nat) (r : SubReq) (cb : Nat)
+    (hreg : s.core.consumers.contains app = true) (huniq : ∀ y ∈ s.subs, y.cb = cb → y.req = r)
+    (ops : List SOp) (hr : noResubscribe cb ops) :
+    ∀ o ∈ (srun cfg u β (sstep cfg u β s (.unsubscribe app (some (r, cb)))).1 ops).2, ∀ c ∈ o.calls, c.cb ≠ cb := by
+  apply no_call_without_subscription cfg u β cb ops _ _ hr
+  simp only [sstep]
+  exact doUnsub_cb_gone u s app r cb hreg huniq
+
+/-- **… also inside an attendance** (re-entrant callbacks): when the attendance has served subscription `x` and the
+action of its callback (an unsubscribe, a deregistration) has left no stored subscription with callback `cb`, the
+REST OF THE SAME ATTENDANCE does not invoke `cb` any more, although `cb`'s subscription is still in the snapshot the
+loop walks over (repaired code, fixes/C14-removed-subscription-not-notified). -/
+theorem reentrant_removal_effective (cfg : Cfg) (u : Bool) (β : Nat → CbAct) (s : SSt) (x : Sub) (xs : List Sub)
+    (calls : List Call) (rm : List Sub) (s1 : SSt) (cs : List Call) (d : Bool) (h : attendOne s x = .ok (s1, cs, d))
+    (cb : Nat) (hgone : cb ∉ cbsOf (cs.foldl (fun st c => applyAct cfg u st (β c.cb)) s1)) :
+    ∀ c ∈ (attendLoop cfg u β s (x :: xs) calls rm).2, c ∈ calls ∨ c ∈ cs ∨ c.cb ≠ cb := by
+  intro c hc
+  simp only [attendLoop, h] at hc
+  rcases (attendLoop_spec cfg u β xs _ _ _).2 c hc with h1 | ⟨y, hy, a1, _⟩
+  · rcases List.mem_append.mp h1 with h1 | h1
+    · exact Or.inl h1
+    · exact Or.inr (Or.inl h1)
+  · refine Or.inr (Or.inr ?_)
+    intro e
+    apply hgone
+    simp only [cbsOf, List.mem_map]
+    exact ⟨y, hy, by rw [← a1, e]⟩
+
+/-- instance: the callback of `x` unsubscribes `(r, cb)` -/
+theorem reentrant_unsubscribe_effective (cfg : Cfg) (u : Bool) (β : Nat → CbAct) (s : SSt) (x : Sub) (xs : List Sub)
+    (calls : List Call) (rm : List Sub) (s1 : SSt) (c0 : Call) (d : Bool) (h : attendOne s x = .ok (s1, [c0], d))
+    (app : Nat) (r : SubReq) (cb : Nat) (hact : β c0.cb = .unsub app (some (r, cb)))
+    (hreg : s1.core.consumers.contains app = true) (huniq : ∀ y ∈ s1.subs, y.cb = cb → y.req = r) :
+    ∀ c ∈ (attendLoop cfg u β s (x :: xs) calls rm).2, c ∈ calls ∨ c = c0 ∨ c.cb ≠ cb := by
+  intro c hc
+  have := reentrant_removal_effective cfg u β s x xs calls rm s1 [c0] d h cb
+    (by simp only [List.foldl_cons, List.foldl_nil, hact, applyAct]; exact doUnsub_cb_gone u s1 app r cb hreg huniq) c hc
+  simpa using this
+
 /-- deregistering a consumer removes all its subscriptions at once … -/
-theorem deregister_removes (cfg : Cfg) (u : Bool) (s : SSt) (app : Nat) (hreg : s.core.consumers.contains app = true) :
-    (sstep cfg u s (.core (.deregConsumer app))).1.subs = s.subs.filter (fun x => !(x.req.app == app)) := by
-  simp only [sstep, hreg, if_true]
+theorem deregister_removes (cfg : Cfg) (u : Bool) (β : Nat → CbAct) (s : SSt) (app : Nat)
+    (hreg : s.core.consumers.contains app = true) :
+    (sstep cfg u β s (.core (.deregConsumer app))).1.subs = s.subs.filter (fun x => !(x.req.app == app)) := by
+  simp only [sstep, doDereg, hreg, if_true]
   exact remove_all (fun x => x.req.app == app) { s with core := (step cfg s.core (.deregConsumer app)).1 }
 
 /-- **no callback after deregistration** (all histories), also when the consumer registers again later -/
-theorem no_callback_after_deregister (cfg : Cfg) (u : Bool) (s : SSt) (x : Sub) (hx : x ∈ s.subs)
+theorem no_callback_after_deregister (cfg : Cfg) (u : Bool) (β : Nat → CbAct) (s : SSt) (x : Sub) (_hx : x ∈ s.subs)
     (hreg : s.core.consumers.contains x.req.app = true) (huniq : ∀ y ∈ s.subs, y.cb = x.cb → y.req.app = x.req.app)
     (ops : List SOp) (hr : noResubscribe x.cb ops) :
-    ∀ o ∈ (srun cfg u (sstep cfg u s (.core (.deregConsumer x.req.app))).1 ops).2, ∀ c ∈ o.calls, c.cb ≠ x.cb := by
-  apply no_call_without_subscription cfg u x.cb ops _ _ hr
-  simp only [cbsOf, deregister_removes cfg u s x.req.app hreg, List.mem_map, List.mem_filter, not_exists, not_and]
+    ∀ o ∈ (srun cfg u β (sstep cfg u β s (.core (.deregConsumer x.req.app))).1 ops).2, ∀ c ∈ o.calls, c.cb ≠ x.cb := by
+  apply no_call_without_subscription cfg u β x.cb ops _ _ hr
+  simp only [cbsOf, deregister_removes cfg u β s x.req.app hreg, List.mem_map, List.mem_filter, not_exists, not_and]
   intro y hy hcb
   have := huniq y hy.1 hcb
   simp_all
 
-/-- a consumer that is not registered is not notified at an attendance, and its subscription is dropped -/
+/-- a consumer that is not registered is not notified at an attendance, and its subscription is dropped
+(`attend_drops_deregistered`) -/
 theorem unregistered_not_notified (s : SSt) (x : Sub) (h : s.core.consumers.contains x.req.app = false) :
     attendOne s x = .ok (s, [], true) := by
   unfold attendOne
@@ -172,13 +244,14 @@ theorem unregistered_not_notified (s : SSt) (x : Sub) (h : s.core.consumers.cont
 
 /-- **isolation** (repaired variant, unique ids): unsubscribing one subscription leaves every other subscription
 stored, in order, with its notification clock untouched. -/
-theorem isolation (cfg : Cfg) (s : SSt) (app : Nat) (r : SubReq) (cb : Nat) (hreg : s.core.consumers.contains app = true) :
-    (sstep cfg true s (.unsubscribe app (some (r, cb)))).1.subs = s.subs.filter (fun x => !(x.cb == cb && x.req == r)) ∧
+theorem isolation (cfg : Cfg) (β : Nat → CbAct) (s : SSt) (app : Nat) (r : SubReq) (cb : Nat)
+    (hreg : s.core.consumers.contains app = true) :
+    (sstep cfg true β s (.unsubscribe app (some (r, cb)))).1.subs = s.subs.filter (fun x => !(x.cb == cb && x.req == r)) ∧
     (∀ y, ¬ (y.cb = cb ∧ y.req = r) →
-        lcGet (sstep cfg true s (.unsubscribe app (some (r, cb)))).1.lastChecked y = lcGet s.lastChecked y) := by
-  refine ⟨by simpa using unsubscribe_removes cfg true s app r cb hreg, ?_⟩
+        lcGet (sstep cfg true β s (.unsubscribe app (some (r, cb)))).1.lastChecked y = lcGet s.lastChecked y) := by
+  refine ⟨by simpa using unsubscribe_removes cfg true β s app r cb hreg, ?_⟩
   intro y hy
-  simp only [sstep, hreg, Bool.not_true, Bool.false_eq_true, if_false, if_true]
+  simp only [sstep, doUnsub, hreg, Bool.not_true, Bool.false_eq_true, if_false, if_true]
   split
   · rfl
   · apply lcGet_remove
@@ -188,15 +261,16 @@ theorem isolation (cfg : Cfg) (s : SSt) (app : Nat) (r : SubReq) (cb : Nat) (hre
 
 /-- the code as it is (id = hash(request)): isolation outside the known region — subscriptions whose request
 differs from the unsubscribed one are untouched -/
-theorem isolation_partial (cfg : Cfg) (s : SSt) (app : Nat) (r : SubReq) (cb : Nat) (hreg : s.core.consumers.contains app = true) :
-    (∀ y ∈ s.subs, y.req ≠ r → y ∈ (sstep cfg false s (.unsubscribe app (some (r, cb)))).1.subs) ∧
-    (∀ y, y.req ≠ r → lcGet (sstep cfg false s (.unsubscribe app (some (r, cb)))).1.lastChecked y = lcGet s.lastChecked y) := by
+theorem isolation_partial (cfg : Cfg) (β : Nat → CbAct) (s : SSt) (app : Nat) (r : SubReq) (cb : Nat)
+    (hreg : s.core.consumers.contains app = true) :
+    (∀ y ∈ s.subs, y.req ≠ r → y ∈ (sstep cfg false β s (.unsubscribe app (some (r, cb)))).1.subs) ∧
+    (∀ y, y.req ≠ r → lcGet (sstep cfg false β s (.unsubscribe app (some (r, cb)))).1.lastChecked y = lcGet s.lastChecked y) := by
   constructor
   · intro y hy hne
-    rw [unsubscribe_removes cfg false s app r cb hreg]
+    rw [unsubscribe_removes cfg false β s app r cb hreg]
     simp [List.mem_filter, hy, hne]
   · intro y hne
-    simp only [sstep, hreg, Bool.not_true, Bool.false_eq_true, if_false]
+    simp only [sstep, doUnsub, hreg, Bool.not_true, Bool.false_eq_true, if_false]
     split
     · rfl
     · apply lcGet_remove
@@ -205,7 +279,8 @@ theorem isolation_partial (cfg : Cfg) (s : SSt) (app : Nat) (r : SubReq) (cb : N
       exact hne h1
 
 /-- attending one subscription changes no stored subscription, nothing in the store or the registries, and no
-other subscription's notification clock -/
+other subscription's notification clock; an attendance as a whole never touches the store, and — with callbacks that
+do not re-enter — whether another subscription is notified does not depend on this one (`attend_complete`) -/
 theorem attend_isolation (s : SSt) (x y : Sub) (s1 : SSt) (cs : List Call) (d : Bool)
     (h : attendOne s x = .ok (s1, cs, d)) (hxy : y ≠ x) :
     s1.subs = s.subs ∧ s1.core = s.core ∧ lcGet s1.lastChecked y = lcGet s.lastChecked y := by
@@ -219,23 +294,25 @@ def stTwo : SSt :=
     core := { (St.init 1700000000000 1000000) with consumers := [2] },
     subs := [{ req := reqA, cb := 0 }, { req := reqA, cb := 1 }] }
 def cfg0 : Cfg := { area := { lat := 0, lon := 0, alt := 0, relDist := 4 }, areaFixed := false, gated := false }
+def quiet : Nat → CbAct := fun _ => .none
 
 /-- C14-KF1: two equal requests share the id; unsubscribing the first removes the second as well (code as is),
 while with unique ids the second stays -/
 theorem isolation_witness :
-    (sstep cfg0 false stTwo (.unsubscribe 2 (some (reqA, 0)))).1.subs = [] ∧
-    (sstep cfg0 true stTwo (.unsubscribe 2 (some (reqA, 0)))).1.subs = [{ req := reqA, cb := 1 }] := by
+    (sstep cfg0 false quiet stTwo (.unsubscribe 2 (some (reqA, 0)))).1.subs = [] ∧
+    (sstep cfg0 true quiet stTwo (.unsubscribe 2 (some (reqA, 0)))).1.subs = [{ req := reqA, cb := 1 }] := by
   decide
 
-/-! ## validation -/
+/-! ## validation: invalid subscription requests are refused with the matching result code -/
 
-/-! the seven refusal causes -/
+/-! the seven refusal causes, written from the property text and EN 302 895 (priority and multiplicity 0..255, the
+notification interval a TimestampIts 0..2^42-1) — independent of the model -/
 def unknownConsumer (consumers : List Nat) (r : SubReq) : Bool := !consumers.contains r.app
 def badType (r : SubReq) : Bool := r.types.any (fun t => !validType t)
 def badPriority (r : SubReq) : Bool := match r.prio with | some p => decide (p < 0) || decide (p > 255) | none => false
 def badOrder (r : SubReq) : Bool := r.order.isSome && r.orderBad
 def badFilter (r : SubReq) : Bool := r.filterBad
-def badInterval (r : SubReq) : Bool := match r.notify with | some n => decide (n < 0) || decide (n > maxNotify) | none => false
+def badInterval (r : SubReq) : Bool := match r.notify with | some n => decide (n < 0) || decide (n > 4398046511103) | none => false
 def badMultiplicity (r : SubReq) : Bool := match r.mult with | some m => decide (m < 0) || decide (m > 255) | none => false
 
 /-- the causes say what their names say -/
@@ -247,12 +324,34 @@ theorem causes_meaning (consumers : List Nat) (r : SubReq) :
     (badMultiplicity r = true ↔ ∃ m, r.mult = some m ∧ (m < 0 ∨ m > 255)) := by
   refine ⟨by simp [unknownConsumer], by simp [badType], ?_, ?_, ?_⟩
   · cases h : r.prio <;> simp [badPriority, h]
-  · cases h : r.notify <;> simp [badInterval, h, maxNotify]
+  · cases h : r.notify <;> simp [badInterval, h]
   · cases h : r.mult <;> simp [badMultiplicity, h]
 
-/-- **validation_codes**: the refusal code of a subscription request, cause by cause in the order the checks are
-made: 1 unknown consumer, 2 data object type, 3 priority, 7 order, 4 filter, 5 notification interval,
-6 multiplicity; none of them: accepted. -/
+/-- the facts re-read from if_ldm_4.py on every run (harness/gen_ldm_subs.py): the checks of
+`validate_subscribe_data_consumer` in source order with the code each returns, and the accepted intervals of the
+range validators probed on the real methods — equal to what the standard says.  A changed bound, a reordered or
+re-coded check re-opens this obligation (and the model's `subscribeRefusal`, which is DEFINED from these facts). -/
+theorem generated_bounds :
+    Generated.LdmSubs.prioRange = (0, 255) ∧ Generated.LdmSubs.notifyRange = (0, 4398046511103) ∧
+    Generated.LdmSubs.multRange = (0, 255) ∧ Generated.LdmSubs.noneAccepted = [true, true, true] ∧
+    Generated.LdmSubs.subscribeLadder =
+      [("is_valid_its_aid", 1), ("is_valid_data_object_type", 2), ("is_valid_priority", 3), ("is_valid_order", 7),
+       ("is_valid_filter", 4), ("is_valid_notify_time", 5), ("is_valid_multiplicity", 6)] := by
+  decide
+
+theorem inRange_iff (lo hi : Int) (o : Option Int) :
+    inRange (lo, hi) o = !(match o with | some v => decide (v < lo) || decide (v > hi) | none => false) := by
+  cases o with
+  | none => rfl
+  | some v =>
+    simp only [inRange]
+    by_cases h1 : lo ≤ v <;> by_cases h2 : v ≤ hi <;>
+      simp [h1, h2, show (v < lo) = ¬ (lo ≤ v) from by simp, show (v > hi) = ¬ (v ≤ hi) from by simp]
+
+/-- **validation_codes**: the refusal code of a subscription request, cause by cause in the order the code makes
+its checks: 1 unknown consumer, 2 data object type, 3 priority, 7 order, 4 filter, 5 notification interval,
+6 multiplicity; none of them: accepted.  (`subscribeRefusal` walks the generated ladder; the causes are the
+independent ones above.) -/
 theorem validation_codes (consumers : List Nat) (r : SubReq) :
     subscribeRefusal consumers r =
       if unknownConsumer consumers r then some 1
@@ -263,8 +362,21 @@ theorem validation_codes (consumers : List Nat) (r : SubReq) :
       else if badInterval r then some 5
       else if badMultiplicity r then some 6
       else none := by
-  unfold subscribeRefusal unknownConsumer badType badPriority badOrder badFilter badInterval badMultiplicity
-  cases r.prio <;> cases r.notify <;> cases r.mult <;> rfl
+  obtain ⟨g1, g2, g3, _, g5⟩ := generated_bounds
+  have v1 : validatorOk consumers r "is_valid_its_aid" = !unknownConsumer consumers r := by simp [validatorOk, unknownConsumer]
+  have v2 : validatorOk consumers r "is_valid_data_object_type" = !badType r := by
+    simp [validatorOk, badType, List.all_eq_not_any_not]
+  have v3 : validatorOk consumers r "is_valid_priority" = !badPriority r := by
+    simp only [validatorOk, g1, inRange_iff, badPriority]; simp
+  have v7 : validatorOk consumers r "is_valid_order" = !badOrder r := by simp [validatorOk, badOrder]
+  have v4 : validatorOk consumers r "is_valid_filter" = !badFilter r := by simp [validatorOk, badFilter]
+  have v5 : validatorOk consumers r "is_valid_notify_time" = !badInterval r := by
+    simp only [validatorOk, g2, inRange_iff, badInterval]; simp
+  have v6 : validatorOk consumers r "is_valid_multiplicity" = !badMultiplicity r := by
+    simp only [validatorOk, g3, inRange_iff, badMultiplicity]; simp
+  simp only [subscribeRefusal, g5, List.find?, v1, v2, v3, v7, v4, v5, v6, Bool.not_not]
+  cases unknownConsumer consumers r <;> cases badType r <;> cases badPriority r <;> cases badOrder r <;>
+    cases badFilter r <;> cases badInterval r <;> cases badMultiplicity r <;> rfl
 
 /-- accepted exactly when no cause applies -/
 theorem accepted_iff_valid (consumers : List Nat) (r : SubReq) :
@@ -274,6 +386,110 @@ theorem accepted_iff_valid (consumers : List Nat) (r : SubReq) :
   rw [validation_codes]
   cases unknownConsumer consumers r <;> cases badType r <;> cases badPriority r <;> cases badOrder r <;>
     cases badFilter r <;> cases badInterval r <;> cases badMultiplicity r <;> simp
+
+/-- the refusal causes and the result code the standard's enumeration `SubscribeDataobjectsResult` names for each
+(independent table; the numbers come from the enum as generated from ldm_classes.py) -/
+inductive Cause where
+  | unknownConsumer | badType | badPriority | badOrder | badFilter | badInterval | badMultiplicity
+  deriving DecidableEq, Inhabited
+
+def Cause.all : List Cause :=
+  [.unknownConsumer, .badType, .badPriority, .badOrder, .badFilter, .badInterval, .badMultiplicity]
+
+def Cause.resultName : Cause → String
+  | .unknownConsumer => "INVALID_ITSA_ID"
+  | .badType => "INVALID_DATA_OBJECT_TYPE"
+  | .badPriority => "INVALID_PRIORITY"
+  | .badOrder => "INVALID_ORDER"
+  | .badFilter => "INVALID_FILTER"
+  | .badInterval => "INVALID_NOTIFICATION_INTERVAL"
+  | .badMultiplicity => "INVALID_MULTIPLICITY"
+
+def Cause.applies (consumers : List Nat) (r : SubReq) : Cause → Bool
+  | .unknownConsumer => Props.C14.unknownConsumer consumers r
+  | .badType => Props.C14.badType r
+  | .badPriority => Props.C14.badPriority r
+  | .badOrder => Props.C14.badOrder r
+  | .badFilter => Props.C14.badFilter r
+  | .badInterval => Props.C14.badInterval r
+  | .badMultiplicity => Props.C14.badMultiplicity r
+
+/-- the integer value of a result code, by NAME, in the enumeration of the repository -/
+def codeOfName (n : String) : Option Nat :=
+  (SubscribeDataobjectsResult_values.find? (fun p => p.1 == n)).map (·.2)
+
+/-- the ladder as a function of the seven causes -/
+def chain (b1 b2 b3 b4 b5 b6 b7 : Bool) : Option Nat :=
+  if b1 then some 1 else if b2 then some 2 else if b3 then some 3 else if b4 then some 7 else if b5 then some 4
+  else if b6 then some 5 else if b7 then some 6 else none
+
+theorem validation_chain (consumers : List Nat) (r : SubReq) :
+    subscribeRefusal consumers r = chain (unknownConsumer consumers r) (badType r) (badPriority r) (badOrder r)
+      (badFilter r) (badInterval r) (badMultiplicity r) := validation_codes consumers r
+
+theorem chain_refuses : ∀ b1 b2 b3 b4 b5 b6 b7 : Bool, (b1 || b2 || b3 || b4 || b5 || b6 || b7) = true →
+    ∃ c, chain b1 b2 b3 b4 b5 b6 b7 = some c ∧ c ≠ 0 := by
+  intro b1 b2 b3 b4 b5 b6 b7
+  cases b1 <;> cases b2 <;> cases b3 <;> cases b4 <;> cases b5 <;> cases b6 <;> cases b7 <;> simp [chain]
+
+theorem applies_or (consumers : List Nat) (r : SubReq) (k : Cause) (hk : k.applies consumers r = true) :
+    (unknownConsumer consumers r || badType r || badPriority r || badOrder r || badFilter r || badInterval r ||
+      badMultiplicity r) = true := by
+  cases k <;> simp only [Cause.applies] at hk <;> simp [hk]
+
+theorem chain_matching (consumers : List Nat) (r : SubReq) (c : Nat)
+    (hc : chain (unknownConsumer consumers r) (badType r) (badPriority r) (badOrder r) (badFilter r) (badInterval r)
+      (badMultiplicity r) = some c) :
+    ∃ k : Cause, k.applies consumers r = true ∧ codeOfName k.resultName = some c := by
+  unfold chain at hc
+  cases h1 : unknownConsumer consumers r
+  case true => exact ⟨.unknownConsumer, h1, by simp [h1] at hc; subst hc; decide⟩
+  cases h2 : badType r
+  case true => exact ⟨.badType, h2, by simp [h1, h2] at hc; subst hc; decide⟩
+  cases h3 : badPriority r
+  case true => exact ⟨.badPriority, h3, by simp [h1, h2, h3] at hc; subst hc; decide⟩
+  cases h4 : badOrder r
+  case true => exact ⟨.badOrder, h4, by simp [h1, h2, h3, h4] at hc; subst hc; decide⟩
+  cases h5 : badFilter r
+  case true => exact ⟨.badFilter, h5, by simp [h1, h2, h3, h4, h5] at hc; subst hc; decide⟩
+  cases h6 : badInterval r
+  case true => exact ⟨.badInterval, h6, by simp [h1, h2, h3, h4, h5, h6] at hc; subst hc; decide⟩
+  cases h7 : badMultiplicity r
+  case true => exact ⟨.badMultiplicity, h7, by simp [h1, h2, h3, h4, h5, h6, h7] at hc; subst hc; decide⟩
+  simp [h1, h2, h3, h4, h5, h6, h7] at hc
+
+/-- **refused_with_matching_code**: (1) a request to which some cause applies is refused, with a code other than
+SUCCESSFUL; (2) the code of a refusal is the code the enumeration names for a cause that DOES apply to the request;
+(3) when exactly one cause applies the code is that cause's; (4) a request to which no cause applies is accepted. -/
+theorem refused_with_matching_code (consumers : List Nat) (r : SubReq) :
+    (∀ k : Cause, k.applies consumers r = true → ∃ c, subscribeRefusal consumers r = some c ∧ codeOfName "SUCCESSFUL" ≠ some c) ∧
+    (∀ c, subscribeRefusal consumers r = some c →
+        ∃ k : Cause, k.applies consumers r = true ∧ codeOfName k.resultName = some c) ∧
+    (∀ k : Cause, k.applies consumers r = true → (∀ k' : Cause, k'.applies consumers r = true → k' = k) →
+        subscribeRefusal consumers r = codeOfName k.resultName) ∧
+    ((∀ k : Cause, k.applies consumers r = false) → subscribeRefusal consumers r = none) := by
+  rw [validation_chain]
+  have hs : codeOfName "SUCCESSFUL" = some 0 := by decide
+  refine ⟨?_, chain_matching consumers r, ?_, ?_⟩
+  · intro k hk
+    obtain ⟨c, h1, h2⟩ := chain_refuses _ _ _ _ _ _ _ (applies_or consumers r k hk)
+    refine ⟨c, h1, ?_⟩
+    rw [hs]
+    intro e; injection e with e; exact h2 e.symm
+  · intro k hk honly
+    obtain ⟨c, hc, _⟩ := chain_refuses _ _ _ _ _ _ _ (applies_or consumers r k hk)
+    obtain ⟨k', hk', hcode⟩ := chain_matching consumers r c hc
+    rw [hc, ← honly k' hk', hcode]
+  · intro hno
+    have a1 := hno .unknownConsumer; have a2 := hno .badType; have a3 := hno .badPriority; have a4 := hno .badOrder
+    have a5 := hno .badFilter; have a6 := hno .badInterval; have a7 := hno .badMultiplicity
+    simp only [Cause.applies] at a1 a2 a3 a4 a5 a6 a7
+    simp [chain, a1, a2, a3, a4, a5, a6, a7]
+
+/-- non-vacuity: a priority out of range alone is refused with INVALID_PRIORITY = 3 -/
+example : subscribeRefusal [2] { reqA with prio := some 256 } = some 3 ∧
+    Cause.applies [2] { reqA with prio := some 256 } .badPriority = true ∧ codeOfName "INVALID_PRIORITY" = some 3 := by
+  decide
 
 theorem lcGet_lcSet (lc : List (Sub × Int)) (x : Sub) (t : Int) : lcGet (lcSet lc x t) x = some t := by
   unfold lcGet lcSet
@@ -299,28 +515,65 @@ theorem lcGet_lcSet (lc : List (Sub × Int)) (x : Sub) (t : Int) : lcGet (lcSet 
     simp [this]
 
 /-- a refused subscription request has no effect; an accepted one is stored with its interval starting now -/
-theorem subscribe_effect (cfg : Cfg) (u : Bool) (s : SSt) (r : SubReq) (cb : Nat) :
+theorem subscribe_effect (cfg : Cfg) (u : Bool) (β : Nat → CbAct) (s : SSt) (r : SubReq) (cb : Nat) :
     (∀ c, subscribeRefusal s.core.consumers r = some c →
-        sstep cfg u s (.subscribe r cb) = (s, { out := .code c, calls := [] })) ∧
+        sstep cfg u β s (.subscribe r cb) = (s, { out := .code c, calls := [] })) ∧
     (subscribeRefusal s.core.consumers r = none →
-        (sstep cfg u s (.subscribe r cb)).1.subs = s.subs ++ [{ req := r, cb := cb }] ∧
-        lcGet (sstep cfg u s (.subscribe r cb)).1.lastChecked { req := r, cb := cb } = some (nowIts s.core.utcMs) ∧
-        (sstep cfg u s (.subscribe r cb)).2 = { out := .code 0, calls := [] }) := by
+        (sstep cfg u β s (.subscribe r cb)).1.subs = s.subs ++ [{ req := r, cb := cb }] ∧
+        lcGet (sstep cfg u β s (.subscribe r cb)).1.lastChecked { req := r, cb := cb } = some (nowIts s.core.utcMs) ∧
+        (sstep cfg u β s (.subscribe r cb)).2 = { out := .code 0, calls := [] }) := by
   constructor
   · intro c hc; simp [sstep, hc]
   · intro hn
     simp only [sstep, hn]
     exact ⟨trivial, lcGet_lcSet _ _ _, trivial⟩
 
+/-! ## witnesses and non-vacuity -/
+
+def locZ : Loc := { lat := 0, lon := 0, majC := 0, minC := 0, majO := 0, alt := 0, altC := 0, radius := 0, relDist := 0, relDir := 0 }
 def oneCam : List (Nat × Record) :=
-  [(0, { appId := 2, timestamp := 0,
-         loc := { lat := 0, lon := 0, majC := 0, minC := 0, majO := 0, alt := 0, altC := 0, radius := 0, relDist := 0, relDir := 0 },
-         obj := .dict (.cons "cam" (.dict .nil) .nil), validity := 1 })]
+  [(0, { appId := 2, timestamp := 0, loc := locZ, obj := .dict (.cons "cam" (.dict .nil) .nil), validity := 1 })]
 def stTwoCam : SSt :=
   { stTwo with core := { stTwo.core with db := { next := 1, rows := oneCam } } }
 
 /-- non-vacuity: an attendance that notifies (one matching CAM, interval 0) both subscriptions -/
-example : ((sstep cfg0 false stTwoCam .attend).2.calls.map (·.cb)) = [0, 1] := by
+example : ((sstep cfg0 false quiet stTwoCam .attend).2.calls.map (·.cb)) = [0, 1] := by
+  decide
+
+/-- a CAM with and a VAM without the attribute the first subscription orders by -/
+def camG (g : Int) : Record :=
+  { appId := 2, timestamp := 0, loc := locZ, validity := 1,
+    obj := .dict (.cons "cam" (.dict (.cons "generationDeltaTime" (.int g) .nil)) .nil) }
+def vamG : Record :=
+  { appId := 16, timestamp := 1, loc := locZ, validity := 1, obj := .dict (.cons "vam" (.dict .nil) .nil) }
+def reqBadOrder : SubReq :=
+  { app := 2, types := [2, 16], prio := none, filterBad := false, filter := none, notify := some 0, mult := some 1,
+    orderBad := false, order := some [{ attr := ["cam", "generationDeltaTime"], dir := .asc }] }
+def stAbort : SSt :=
+  { (SSt.init 1700000000000 1000000) with
+    core := { (St.init 1700000000000 1000000) with consumers := [2], db := { next := 2, rows := [(0, camG 5), (1, vamG)] } },
+    subs := [{ req := reqBadOrder, cb := 0 }, { req := reqA, cb := 1 }, { req := { reqA with app := 16 }, cb := 2 }] }
+
+/-- **attend_abort_witness** (C14-F2, repaired): the first subscription orders by an attribute one selected object
+lacks (TypeError, C13-KF2).  Code before the fix: the exception stops the loop — subscription 1 (due, matching) is not
+notified, the subscription of the deregistered consumer 16 is not removed, and TypeError escapes.  Repaired code:
+subscription 1 is notified, the dead subscription is removed. -/
+theorem attend_abort_witness :
+    (attendLoopOld stAbort stAbort.subs [] []).2.1 = [] ∧
+    (attendLoopOld stAbort stAbort.subs [] []).2.2 = some .typeError ∧
+    (attendLoopOld stAbort stAbort.subs [] []).1.subs.length = 3 ∧
+    (attend cfg0 false quiet stAbort).2.map (·.cb) = [1] ∧
+    (attend cfg0 false quiet stAbort).1.subs.map (·.cb) = [0, 1] := by
+  decide
+
+/-- a callback that unsubscribes the NEXT subscription of the same attendance: that one is not called -/
+def unsubNext : Nat → CbAct := fun cb => if cb = 0 then .unsub 2 (some ({ reqA with prio := some 1 }, 1)) else .none
+def stReenter : SSt :=
+  { stTwoCam with subs := [{ req := reqA, cb := 0 }, { req := { reqA with prio := some 1 }, cb := 1 }] }
+
+/-- non-vacuity of `reentrant_unsubscribe_effective` (and, with callbacks that do nothing, both are called) -/
+example : (attend cfg0 false unsubNext stReenter).2.map (·.cb) = [0] ∧ (attend cfg0 false quiet stReenter).2.map (·.cb) = [0, 1] ∧
+    (attend cfg0 false unsubNext stReenter).1.subs.map (·.cb) = [0] := by
   decide
 
 end Props.C14
